@@ -385,8 +385,30 @@ def run_replicas(name, tier, seed, work):
     return dict(name=name, tlc=dict(r0), walk=walk, meta=dict(tier=tier), scale='-', walker='det-run')
 
 
+def run_apalache(name, tier, seed, work):
+    """Inductive-invariant obligations of a typed TLA+ module discharged by Apalache (unbounded integers).
+    This strengthens the design-level argument only; the binding to the code is E2/E3 of the same property."""
+    fam = F.FAMILIES[name]
+    t0 = time.time()
+    done = []
+    for title, init, inv, length in fam['obligations']:
+        outdir = os.path.join(work, 'apalache-' + inv + str(length))
+        r = subprocess.run(['timeout', str(fam['timeout'][tier]), 'apalache-mc', 'check', '--init=' + init, '--next=Next', '--inv=' + inv, '--length=%d' % length,
+                            '--out-dir=' + outdir, '--run-dir=' + outdir, os.path.join(SPEC, fam['module'] + '.tla')], cwd=work, stdout=subprocess.PIPE, stderr=subprocess.STDOUT, text=True)
+        ok = r.returncode == 0 and 'Checker reports no error' in r.stdout
+        shutil.rmtree(outdir, ignore_errors=True)
+        if not ok:
+            raise Undecided('Apalache did not discharge "%s" of %s:\n%s' % (title, fam['module'], r.stdout[-1500:]))
+        done.append(title)
+    log('[%s] Apalache discharged %d obligations of %s.tla in %.0fs: %s' % (name, len(done), fam['module'], time.time() - t0, '; '.join(done)))
+    walk = dict(states=0, edges=0, edges_ok=0, replayed=0, unreached_states=0, skipped_subtrees=0, by_type={}, mismatches=[], n_mismatch=0, samples=[], findings={}, finding_samples={})
+    return dict(name=name, tlc=dict(distinct=0, states=0, wall=time.time() - t0), walk=walk, meta=dict(), scale='-', walker='apalache', obligations=done)
+
+
 def run_family(name, tier, seed, work):
     fam = F.FAMILIES[name]
+    if fam.get('kind') == 'apalache':
+        return run_apalache(name, tier, seed, work)
     if fam.get('kind') == 'replicas':
         return run_replicas(name, tier, seed, work)
     if fam.get('kind') == 'formats':
@@ -611,6 +633,7 @@ def run_property(pid, tier, seed):
                       for fr in results if not fr.get('is_trace')],
             recorded_traces=[dict(name=fr['name'], lines_validated_by_tlc=fr['walk']['replayed'], succeeding_events=fr['walk']['edges_ok'],
                                   divergences=fr['walk']['n_mismatch'], tlc_wall_s=round(fr['tlc']['wall'], 1)) for fr in results if fr.get('is_trace')],
+            apalache_obligations_discharged=[o for fr in results for o in fr.get('obligations', [])],
             replayed_edges_by_event_type=by_type,
             rule='every transition TLC generates for the bounded model (all succeeding ones; failing ones with at most FailCap false guards) '
                  'is executed once on the real keepers from a real state projecting to its source state; result, response and full projected post-state are compared',
